@@ -1,3 +1,5 @@
+import CharsetProof.Lemmas.CharsLe
+import CharsetProof.Lemmas.CharsLeNow
 import CharsetProof.Lemmas.EntryFacts
 import CharsetProof.Props.C13
 import CharsetProof.Props.C13f
@@ -9,6 +11,10 @@ open Charset
 #print axioms C13_chaos_of_text_current
 #print axioms probeChunks_fit_lazy
 #print axioms nonEmpty_now
+#print axioms supportedModelled
+#print axioms hchars_now
+#print axioms hchars_full
+#print axioms codec_strict_le
 #print axioms C13_normWindow_fit
 #print axioms C13_window_irrelevant
 #print axioms offsets_single
